@@ -67,7 +67,7 @@ FreeingOnFailOps == {"reallocf", "heap_reallocf"}
 QueryOps == {"usable_size", "good_size", "heap_contains_block", "heap_check_owned", "check_owned",
              "is_in_heap_region", "expand"}
 HeapOps == {"heap_new", "heap_new_in_arena", "heap_delete", "heap_destroy", "heap_set_default",
-            "heap_get_default", "heap_get_backing", "heap_collect", "collect", "visit"}
+            "heap_get_default", "heap_get_backing", "heap_collect", "collect", "visit", "visit_abandoned"}
 
 \* heap a call allocates from: explicit heap, else the thread's default
 HeapOf(c) == IF c.h > 0 THEN c.h ELSE dflt[c.t]
@@ -297,6 +297,17 @@ VisitOK(c, r) ==
           /\ G("AreasCoverAll", \A b \in hb : \E k \in 1..Len(r.areas) :
                    LET ar == r.areas[k] aa == <<ar[1], ar[2]>> IN InsideR(live[b].a, live[b].e, aa, AddP(aa, <<ar[3], ar[4]>>)))
 
+\* C12: mi_abandoned_visit_blocks reports exactly the blocks left behind by terminated threads (orphans: heap 0 in the model)
+VisitAbandonedOK(c, r) ==
+  LET hb == {b \in LiveIds : live[b].h = 0}
+      n == Len(r.blocks)
+  IN IF c.stopat > 0
+     THEN G("StopsWhenFalse", r.nvisited = Min(c.stopat, Cardinality(hb)) /\ (Cardinality(hb) >= c.stopat => ~r.res))
+     ELSE /\ GD("WalkCount", <<n, Cardinality(hb)>>, n = Cardinality(hb))
+          /\ G("WalkEveryLiveOnce", \A b \in hb : Cardinality({i \in 1..n : Encloses(r.blocks[i], b)}) = 1)
+          /\ G("WalkOnlyLive", \A i \in 1..n : Cardinality({b \in hb : Encloses(r.blocks[i], b)}) = 1)
+          /\ G("WalkEveryLiveOnce", Cardinality({<<r.blocks[i][1], r.blocks[i][2]>> : i \in 1..n}) = n)
+
 RetHeap(c, r) ==
   CASE c.op \in {"heap_new", "heap_new_in_arena"} ->
          IF r.null
@@ -331,6 +342,9 @@ RetHeap(c, r) ==
          /\ UNCHANGED <<live, heaps, dflt, backing, arenas, cfg, aux>>
     [] c.op = "heap_get_backing" ->
          /\ G("BackingHeap", r.h = backing[c.t])
+         /\ UNCHANGED <<live, heaps, dflt, backing, arenas, cfg, aux>>
+    [] c.op = "visit_abandoned" ->
+         /\ VisitAbandonedOK(c, r)
          /\ UNCHANGED <<live, heaps, dflt, backing, arenas, cfg, aux>>
     [] c.op = "visit" ->
          /\ VisitOK(c, r)
